@@ -43,6 +43,12 @@ Definition prefix_cmp (p q : prefix) : comparison :=
 
 Definition prefix_none : prefix := Metric 0.
 
+Definition cmp_eqb (x y : comparison) : bool :=
+  match x, y with
+  | Eq, Eq | Lt, Lt | Gt, Gt => true
+  | _, _ => false
+  end.
+
 Definition bool_cmp (a b : bool) : comparison :=
   match a, b with
   | false, true => Lt
@@ -383,24 +389,46 @@ Section Tbl.
       if Z.ltb n 0 && q_is_zero a then Err DivisionByZero
       else Ok (qnew (n_pow N (q_val a) (Qc_of_Z n)) (upower (q_unit a) (Qc_of_Z n))).
 
+    (* Quantity::symmetric_partial_cmp: each operand is converted to the unit of the
+       other one; the two comparisons have to agree, otherwise the quantities differ
+       only by rounding and count as equal.  Err = incompatible units, Ok None = NaN *)
+    Definition sym_cmp (a b : quantity) : res_t (option comparison) :=
+      let in_own_unit :=
+          match convert_to b (q_unit a) with
+          | Ok b' => Ok (n_cmp N (q_val a) (q_val b'))
+          | Err e => Err e
+          end in
+      let in_other_unit :=
+          match convert_to a (q_unit b) with
+          | Ok a' => Ok (n_cmp N (q_val a') (q_val b))
+          | Err e => Err e
+          end in
+      match in_own_unit, in_other_unit with
+      | Ok (Some c1), Ok (Some c2) => if cmp_eqb c1 c2 then Ok (Some c1) else Ok (Some Eq)
+      | Ok None, _ => Ok None
+      | _, Ok None => Ok None
+      | Ok c, Err _ => Ok c                      (* only one direction: a zero value *)
+      | Err _, Ok c => Ok c
+      | Err _, Err _ => Err IncompatibleUnits
+      end.
+
     (* impl PartialEq for Quantity *)
     Definition qeq (a b : quantity) : bool :=
-      match convert_to b (q_unit a) with
-      | Ok b' => n_eqb N (q_val a) (q_val b')
-      | Err _ => false
-      end.
+      match sym_cmp a b with Ok (Some Eq) => true | _ => false end.
     Definition qne (a b : quantity) : bool := negb (qeq a b).   (* default PartialEq::ne *)
+
+    (* impl PartialOrd for Quantity *)
+    Definition q_partial_cmp (a b : quantity) : option comparison :=
+      match sym_cmp a b with Ok c => c | Err _ => None end.
 
     (* Quantity::partial_cmp_preserve_nan *)
     Inductive qordering := OIncompatible | ONan | OOk (c : comparison) | OPanic.
     Definition pcmp (a b : quantity) : qordering :=
       if n_is_nan N (q_val a) || n_is_nan N (q_val b) then ONan
-      else match convert_to b (q_unit a) with
+      else match sym_cmp a b with
            | Err _ => OIncompatible
-           | Ok b' => match n_cmp N (q_val a) (q_val b') with
-                      | Some c => OOk c
-                      | None => OPanic          (* .expect(...) *)
-                      end
+           | Ok (Some c) => OOk c
+           | Ok None => OPanic                  (* .expect(...) *)
            end.
 
     (* vm.rs Op::LessThan | GreaterThan | LessOrEqual | GreatorOrEqual *)
